@@ -368,7 +368,7 @@ def FragBk (n : Node) : Prop := n.subs = [] ∧ hasRefAttr n = false ∧ (ClsP n
 
 theorem FragA.toBk {n : Node} (h : FragA n) : FragBk n := by
   refine ⟨h.1, h.2.1, ?_⟩
-  rcases h.2.2 with hP | hK | ⟨h1, h2, x, o, h3, h4, _⟩ | ⟨h1, x, o, h2, _, h3⟩
+  rcases h.2.2 with hP | hK | ⟨h1, h2, x, o, h3, h4, _⟩ | ⟨h1, x, o, h2, _, h3⟩ | ⟨h1, _, x, o, h2, h3, _⟩ | ⟨h1, _, _, x, w, o, h2, h3, _⟩
   · exact Or.inl hP
   · exact Or.inr (Or.inl hK)
   · exact Or.inr (Or.inr (Or.inl ⟨h1, h2, x, o, h3, h4⟩))
@@ -376,6 +376,8 @@ theorem FragA.toBk {n : Node} (h : FragA n) : FragBk n := by
     rcases h3 with ⟨hop, hin⟩ | ⟨hop, tl, hin, htl⟩
     · exact clsX_concat1 n x o hop hin h2
     · exact clsX_dropout n x o tl hop hin htl h2
+  · exact Or.inr (Or.inr (Or.inr (clsX_cast n x o h1 h2 h3)))
+  · exact Or.inr (Or.inr (Or.inr (clsX_castlike n x o [some w] h1 h2 h3)))
 
 theorem substOne_shape (st : St) : ∀ (l : List (Option Name)), (l.map (substOne st)).map Option.isSome = l.map Option.isSome
   | [] => rfl
